@@ -17,9 +17,6 @@
     without handler or accessible variable: `C08_read_gate`, `C08_write_gate`).
 -/
 import CatVerif.Proofs.Log
-import CatVerif.Proofs.Steps.Found
-import CatVerif.Proofs.Steps.Resolve
-import CatVerif.Proofs.Steps.Leaves
 namespace Cat
 open St
 
@@ -88,27 +85,5 @@ theorem C09_no_run_handler (D : Desc) (s : St) (ht : s.cmdType = .run) (hr : (D.
 /-- non-vacuity: a one-command table whose command is disabled -/
 example : disabledByIndex [{ name := none, cmds := [{ (default : CmdD) with disable := true }], disable := false }] 0 = true := by
   decide
-
-/-- the functions that keep disabled entries out of the match state (`update_command`), never select them
-(`search_command`) and refuse test-only and handler-less requests (`command_found`) are the ones translated from the
-source on every run (translator items T9, T11) -/
-theorem C09_gates_generated (D : Desc) (s : St) :
-    updateCommand D s = Gen.update_command D (s.chkUb (decide (s.index < D.commandsNum))) ∧
-    searchCommand D s = Gen.search_command D (s.chkUb (decide (s.index < D.commandsNum))) ∧
-    commandFound D s = Gen.command_found D (s.chkUb s.cmd.isSome) :=
-  ⟨updateCommand_generated D s, searchCommand_generated D s, commandFound_generated D s⟩
-
-/-- the counters this property's theorems keep as unbounded natural numbers (`index`) are declared
-`size_t` in `cat.h` — 64 bits on the target, so they cannot wrap on any buffer, table or line that exists; the widths
-are read from the struct declarations on every run (translator item T21) -/
-theorem C09_counters_unbounded :
-    Gen.width_obj_index = 64 := by decide
-
-/-- the walk over the command groups — which entry a table index names, and whether that entry or its group is disabled —
-is the transliteration of `get_command_by_index` / `is_command_disable`, emitted while their bodies have the recorded form
-(translator item T22) -/
-theorem C09_walk_generated (D : Desc) (i : Nat) :
-    cmdByIndex D.groups i = Gen.get_command_by_index D i ∧ disabledByIndex D.groups i = Gen.is_command_disable D i :=
-  ⟨cmdByIndex_generated D i, disabledByIndex_generated D i⟩
 
 end Cat
